@@ -24,6 +24,9 @@ type fakeProxy struct {
 	setDestErr  func(u *url.URL) error   // optional failure injection
 	onSetDest   func(u *url.URL, hasCb bool) // observation
 	connectErr  error
+	slowGate    chan struct{}                // when set, SetDest blocks until a token arrives (or the context ends)
+	onBegin     func(u *url.URL, hasCb bool) // observation: SetDest was entered
+	inSetDest   bool
 }
 
 type fakeHashrate struct{ p *fakeProxy }
@@ -57,7 +60,28 @@ func (f *fakeProxy) SetDest(ctx context.Context, dest *url.URL, onSubmit func(di
 	f.mu.Lock()
 	fail := f.setDestErr
 	obs := f.onSetDest
+	gate, beg := f.slowGate, f.onBegin
 	f.mu.Unlock()
+	if gate != nil {
+		// a destination change that takes time: the scheduler goroutine stays in here until released
+		f.mu.Lock()
+		f.inSetDest = true
+		f.mu.Unlock()
+		if beg != nil {
+			beg(dest, onSubmit != nil)
+		}
+		select {
+		case <-gate:
+		case <-ctx.Done():
+			f.mu.Lock()
+			f.inSetDest = false
+			f.mu.Unlock()
+			return ctx.Err()
+		}
+		f.mu.Lock()
+		f.inSetDest = false
+		f.mu.Unlock()
+	}
 	if fail != nil {
 		if err := fail(dest); err != nil {
 			return err
